@@ -17,7 +17,7 @@ from .. import harness as H
 from .. import sim
 from ..engine import bfs, pmap
 from ..qcopy import fastcopy
-from ..ref.queue import RefQueue, Rec, rec_of, key
+from ..ref.queue import RefQueue, Rec, rec_of, key, wire
 from ..sim import HarnessError, Abort
 
 PID = "C12"
@@ -151,6 +151,7 @@ def alphabet_of(seed):
     def alphabet(st):
         ops = [("enq", i) for i in range(N_FRESH)]
         ops += [("enq_alt", j) for j in range(2)]
+        ops += [("enq_str", 0)]
         for i in range(2):
             if st.held[i] is not None:
                 ops += [("mutate", i), ("reuse", i)]
@@ -211,15 +212,20 @@ def step(st, op, seed, pid=PID):
 
     outcome = kind
     try:
-        if kind in ("enq", "enq_alt", "reuse"):
+        if kind in ("enq", "enq_alt", "enq_str", "reuse"):
             if kind == "enq":
                 fr = build(sp[op[1]], mutable=(op[1] % 2 == 0))
                 st.held[op[1]] = fr
             elif kind == "enq_alt":
                 fr = build(alt_of(sp[op[1]], op[1], seed), mutable=False)
+            elif kind == "enq_str":
+                # the same frame, its type given as the one-character string with that code
+                fr = build(sp[op[1]], mutable=False)
+                fr.header.message_type = chr(sp[op[1]].message_type)
             else:
                 fr = st.held[op[1]]
-            rec = rec_of(fr)  # the value the caller passes in
+            raw = rec_of(fr)
+            rec = wire(raw)  # the value the caller passes in
             pre_len, mx = len(m), m.max_queue_size
             why = m.why_reject(rec)
             got = q.enqueue(fr)
@@ -234,8 +240,8 @@ def step(st, op, seed, pid=PID):
                 if got is not want:
                     v("enqueue-return:%s:%s" % (kind, why or "storable"),
                       "enqueue() returned %r, expected %r (%s)" % (got, want, why or "new frame, room left"))
-            if rec_of(fr) != rec:
-                v("enqueue-changed-argument:" + kind, "enqueue() changed the caller's frame %r -> %r" % (tuple(rec), tuple(rec_of(fr))))
+            if rec_of(fr) != raw:
+                v("enqueue-changed-argument:" + kind, "enqueue() changed the caller's frame %r -> %r" % (tuple(raw), tuple(rec_of(fr))))
             outcome = "%s:%s" % ("enq" if kind != "reuse" else "reuse", "accepted" if got else "refused:" + str(why))
         elif kind == "mutate":
             fr = st.held[op[1]]
